@@ -29,6 +29,10 @@ CHECKS = {
                   'outcome of an explicit-state reference of Go channel semantics (value identities decided by z3).', design_ref='DESIGN.md §4 C03',
              note='trusted: the reference semantics (class Ref in harness/C03/check.py), engine/jsx, acorn, z3. Fairness beyond "a woken goroutine is scheduled" is outside the claim.',
              technique='exhaustive exploration of the runtime\'s nondeterministic choices as solver-level choice variables over the real prelude + explicit-state reference model of Go channels; payload equalities by z3'),
+ 'C04': tv('22 generic templates: per-instance arithmetic width for all operand values (add/mul/neg/shift/conversion at int8..uint32, int, named types, 64-bit add/neg), zero values of every kind, generic types with '
+           'methods / embedding / interfaces, constraints with methods and core types, nested and recursive instantiation through other generic code, types declared inside generic functions, blocking inside generic code for '
+           'every subset of yield points, instances created in and across two packages; identity and distinctness of instances decided on every path by type switches, assertions, interface equality and map keys under symbolic '
+           'selectors. A valid template on which the compiler aborts with an internal error counts as a violation.', 'DESIGN.md §4 C04'),
  'C05': tv('14 programs that reach code only through the indirections the property lists (interfaces incl. interface method expressions, method values/expressions, embedding incl. embedded interfaces and anonymous structs, '
            'generic instances reached through other generic code and local types in generic functions, side-effecting initialisers of unused variables, go:linkname in both import directions, another package, go/defer entry points, '
            'function tables, types used only in assertions, error/panic values) are linked twice by the real compiler - normally and by a variant that keeps every declaration alive (one added statement, injected with go build -overlay) - '
